@@ -6,6 +6,7 @@ import (
 	"fmt"
 	"os"
 	"path/filepath"
+	"sort"
 	"strconv"
 	"strings"
 	"time"
@@ -13,6 +14,8 @@ import (
 	"verif/internal/core"
 	"verif/internal/rules"
 )
+
+var debugHook func()
 
 func main() {
 	prop := flag.String("property", "", "property id (C01…) or 'all'")
@@ -102,6 +105,9 @@ func main() {
 			exit = e
 		}
 	}
+	if os.Getenv("VERIF_DEBUG") != "" && debugHook != nil {
+		debugHook()
+	}
 	os.Exit(exit)
 }
 
@@ -144,9 +150,47 @@ func doDump(c *core.Ctx, what string) {
 			}
 			fmt.Printf("%s b%d %s(%s)\n", c.PosStr(s.Pos()), s.Block().Index, s.Callee, strings.Join(args, " | "))
 		}
+	case strings.HasPrefix(what, "facts:"):
+		// facts holding at the first state mutator of the named function
+		fn := c.Fn(strings.TrimPrefix(what, "facts:"))
+		if fn == nil {
+			fmt.Println("no such fn")
+			return
+		}
+		m := rules.BuildRunModel(c, nil, fn)
+		if len(m.Mutators) == 0 {
+			fmt.Println("no mutators")
+			return
+		}
+		for _, f := range c.FactsAt(m.Mutators[0].Site.Instr, 4) {
+			desc := core.Short(f.Cond.String())
+			if cf, ok := f.AsCall(); ok {
+				var args []string
+				for i := 0; i < 4; i++ {
+					if p := cf.ArgPath(i); p != "" {
+						args = append(args, p)
+					}
+				}
+				desc = fmt.Sprintf("%s(%s) recv=%s op=%v k=%d", cf.Name, strings.Join(args, ", "), cf.RecvPath(), cf.Op, cf.Const)
+			}
+			fmt.Printf("d%d %-5v %s   [%s] via %v\n", f.Depth, f.Truth, desc, c.PosStr(f.Cond.Pos()), f.Via)
+		}
 	case what == "fns":
 		for _, f := range c.AllFns {
 			fmt.Println(core.ShortFn(f))
+		}
+	}
+}
+
+func init() {
+	debugHook = func() {
+		var ks []string
+		for k := range rules.SeenRepoCallees {
+			ks = append(ks, k)
+		}
+		sort.Strings(ks)
+		for _, k := range ks {
+			fmt.Println("  unlisted repo callee in a map-range body:", k)
 		}
 	}
 }
